@@ -4,7 +4,7 @@
 # on success stores the seed under /verif/seeded/<Cxx>-<name>/ and removes the scratch worktree.
 set -u
 id=$1; name=$2; pkg=$3; run=$4; demo=${5:-demo_test.go}
-src=/tmp/seed-$id/_seed
+src=${SEEDROOT:-/tmp/seed-}$id/_seed
 wt=/tmp/verify-$id
 export GOFLAGS=-mod=mod GOPROXY=off GOSUMDB=off GOTOOLCHAIN=local
 git -C /repo worktree remove --force $wt 2>/dev/null
